@@ -37,6 +37,8 @@ def lb_ops(max_ops=100, with_time=False):
       (1, st.tuples(st.just('join'), st.integers(0, 8)).map(list)),
       (1, st.tuples(st.just('leave'), st.integers(0, 8)).map(list)),
       (1, st.just(['leave_all'])),
+      # the deadline of a call parked in a balancer that has not opened yet passes
+      (1, st.tuples(st.just('expire_parked'), st.integers(0, 5)).map(list)),
   ]
   if with_time:
     pairs.append((1, st.tuples(st.just('advance'), st.sampled_from([1, 10, 100, 1000, 5000])).map(list)))
